@@ -679,6 +679,13 @@ func (te *TEnv) call(x *ECall) TV {
 			h := vc.heapGet(te.st, vk, vs)
 			return TV{t: "(select (select " + h + " " + m.t + ") " + k.t + ")", sort: reg.sortOf(mt.Elem()), gt: mt.Elem()}
 		}
+	case "toarray32":
+		// toarray32(s): the [32]byte value a conversion of slice s yields
+		if need(1) {
+			a := arg(0)
+			vc.declareRaw("arr32!Int", "(declare-fun arr32!Int ((Array Int Int) Int) (Array Int Int))")
+			return TV{t: "(arr32!Int " + vc.sliceContent(te.st, a.t, "Int") + " (soff " + a.t + "))", sort: "(Array Int Int)"}
+		}
 	case "bytesof":
 		// bytesof(s): abstract value of a []byte slice
 		if need(1) {
@@ -692,12 +699,20 @@ func (te *TEnv) call(x *ECall) TV {
 			if a.ip != nil {
 				return TV{t: vc.readLoc(te.st, a.ip), sort: reg.sortOf(a.ip.targetType()), gt: a.ip.targetType()}
 			}
+			if a.gt == nil {
+				return te.fail("deref of untyped term in %s", exprString(x))
+			}
 			p, ok := types.Unalias(a.gt).Underlying().(*types.Pointer)
 			if !ok {
 				return te.fail("deref of non-pointer")
 			}
 			if si := reg.structInfoOf(p.Elem()); si != nil {
 				return TV{t: vc.loadStruct(te.st, a.t, si), sort: si.sort, gt: p.Elem()}
+			}
+			if at, ok := types.Unalias(p.Elem()).Underlying().(*types.Array); ok {
+				es := reg.sortOf(at.Elem())
+				h := vc.heapGet(te.st, heapKeyElem(es), "(Array Int (Array Int "+es+"))")
+				return TV{t: "(select " + h + " " + a.t + ")", sort: "(Array Int " + es + ")", gt: p.Elem()}
 			}
 			s := reg.sortOf(p.Elem())
 			h := vc.heapGet(te.st, heapKeyCell(s), "(Array Int "+s+")")
@@ -819,6 +834,19 @@ func (te *TEnv) havocDesignator(m ModItem, st *State) {
 				}
 				s := reg.sortOf(p.Elem())
 				vc.writeLoc(st, &IPtr{root: rootCell, heap: heapKeyCell(s), vsort: s, ref: tv.t, rootT: p.Elem()}, vc.fresh("hv", s))
+				return
+			}
+		case "mapof":
+			tv := te.term(x.Args[0])
+			if mt, ok := types.Unalias(tv.gt).Underlying().(*types.Map); ok && tv.gt != nil {
+				fr := &frame{vc: vc}
+				pk, ps, vk, vs := fr.mapHeaps(mt)
+				hp := vc.heapGet(st, pk, ps)
+				hv := vc.heapGet(st, vk, vs)
+				vc.logWrite(pk, tv.t)
+				vc.logWrite(vk, tv.t)
+				vc.heapSet(st, pk, ps, "(store "+hp+" "+tv.t+" "+vc.fresh("hv_mp", "(Array "+reg.sortOf(mt.Key())+" Bool)")+")")
+				vc.heapSet(st, vk, vs, "(store "+hv+" "+tv.t+" "+vc.fresh("hv_mv", "(Array "+reg.sortOf(mt.Key())+" "+reg.sortOf(mt.Elem())+")")+")")
 				return
 			}
 		case "elems":
